@@ -45,6 +45,8 @@ macro_rules! rec_proof {
         #[kani::stub(alloc::fmt::format, stubs::fmt_format)]
         #[kani::stub(core::fmt::write, stubs::fmt_write)]
         #[kani::stub(<core::io::CustomOwner as core::ops::Drop>::drop, stubs::custom_owner_drop)]
+        #[kani::stub(<std::io::Error as core::fmt::Display>::fmt, stubs::io_error_display)]
+        #[kani::stub(<std::io::Error as core::fmt::Debug>::fmt, stubs::io_error_display)]
         #[kani::stub(std::fs::File::metadata, stubs::file_metadata)]
         #[kani::stub(std::fs::Metadata::len, stubs::metadata_len)]
         #[kani::stub(<std::fs::File as std::os::unix::fs::FileExt>::read_at, stubs::file_read_at)]
@@ -127,11 +129,11 @@ fn handle_error_unit(k: u8, can_truncate: bool) {
             assert!(can_truncate, "tail truncation although truncate_incomplete_record is off");
             assert!(eof || all_zero, "a damaged (non-zero, non-EOF) tail was classified as truncatable");
             kani::cover!(eof, "incomplete record truncated");
-            kani::cover!(!eof && all_zero, "zero tail truncated");
+            kani::cover!(!eof && all_zero, "zero_tail truncated");
         }
         Err(e) => {
             assert!(!(can_truncate && (eof || all_zero)), "a torn or zero tail was refused although truncation is on");
-            kani::cover!(!can_truncate, "refused: truncation off");
+            kani::cover!(!can_truncate, "refused: truncation_off");
             kani::cover!(can_truncate, "refused: damaged record");
             core::mem::forget(e);
         }
@@ -140,88 +142,88 @@ fn handle_error_unit(k: u8, can_truncate: bool) {
 }
 
 // L2, one harness per error kind x flag (concrete shapes, symbolic tail)
-// @harness name=c10_handle_eof_on prop=C10 tier=quick timeout=900 allow_unsat=refused
+// @harness name=c10_handle_eof_on prop=C10 tier=quick timeout=900 allow_unsat=refused,zero_tail
 rec_proof! { unwind = 9, fn c10_handle_eof_on() { handle_error_unit(0, true); } }
-// @harness name=c10_handle_eof_off prop=C10 tier=quick timeout=900 allow_unsat=truncated
+// @harness name=c10_handle_eof_off prop=C10 tier=quick timeout=900 allow_unsat=truncated,damaged
 rec_proof! { unwind = 9, fn c10_handle_eof_off() { handle_error_unit(0, false); } }
-// @harness name=c10_handle_invalid_on prop=C10 tier=quick timeout=900 allow_unsat=incomplete
+// @harness name=c10_handle_invalid_on prop=C10 tier=quick timeout=900 allow_unsat=incomplete,truncation_off
 rec_proof! { unwind = 9, fn c10_handle_invalid_on() { handle_error_unit(1, true); } }
-// @harness name=c10_handle_invalid_off prop=C10 tier=quick timeout=900 allow_unsat=truncated
+// @harness name=c10_handle_invalid_off prop=C10 tier=quick timeout=900 allow_unsat=truncated,damaged
 rec_proof! { unwind = 9, fn c10_handle_invalid_off() { handle_error_unit(1, false); } }
-// @harness name=c10_handle_other_on prop=C09 tier=quick timeout=900 allow_unsat=incomplete
+// @harness name=c10_handle_other_on prop=C09 tier=quick timeout=900 allow_unsat=incomplete,truncation_off
 rec_proof! { unwind = 9, fn c10_handle_other_on() { handle_error_unit(2, true); } }
 
-// L4: iterator over a buffer holding exactly one complete fixed-size record
-// (Commit, 14 bytes with KTypes), or that record cut short, or that record
-// followed by the start of another one.
-fn one_commit() -> [u8; 20] {
-    let mut v: Vec<u8> = Vec::new();
-    let rec = WALRecord::<KTypes>::Commit(kani::any());
-    let n = codeq::Encode::encode(&rec, &mut v).unwrap();
-    assert!(n == 14);
-    let mut buf = [0u8; 20];
-    let mut i = 0;
-    while i < 14 {
-        buf[i] = v[i];
-        i += 1;
-    }
-    // structural bytes are re-asserted as constants (heap reads are not)
-    assert!(buf[0] == 0 && buf[1] == 0 && buf[2] == 0 && buf[3] == 2);
+// L4: the iterator agrees with the plain decoder on a buffer that holds
+// exactly one frame ending at the end of the file (13-byte TruncateAfter(None),
+// the shortest record; 14-byte Commit), and reports every proper prefix once
+// as an incomplete record.
+fn frame<const L: usize>(tag: u8, opt: Option<u8>) -> [u8; L] {
+    let mut buf: [u8; L] = kani::any();
     buf[0] = 0;
     buf[1] = 0;
     buf[2] = 0;
-    buf[3] = 2;
-    core::mem::forget(v);
+    buf[3] = tag;
+    if let Some(o) = opt {
+        buf[4] = o;
+    }
     buf
 }
 
-// @harness name=c10_iter_exact_end prop=C10 tier=quick timeout=900
-rec_proof! {
-    unwind = 20,
-    fn c10_iter_exact_end() {
-        let buf = one_commit();
-        let mut it = RecordIterator::<&[u8], KTypes>::new(&buf[..14], 14, ChunkId(0));
-        match it.next() {
-            Some(Ok((seg, rec))) => {
-                assert!(seg.offset == 0 && seg.size == 14, "segment of the only record");
-                assert!(matches!(rec, WALRecord::Commit(_)));
-                kani::cover!(true, "complete record at the very end of the file is recovered");
-            }
-            Some(Err(e)) => {
-                core::mem::forget(e);
-                assert!(false, "a complete record that ends exactly at the end of the file was reported as an error");
-            }
-            None => assert!(false, "a complete record was skipped"),
+fn iter_vs_decode<const L: usize>(tag: u8, opt: Option<u8>) {
+    let buf = frame::<L>(tag, opt);
+    let plain_ok = {
+        let mut rd: &[u8] = &buf[..];
+        let r = <WALRecord<KTypes> as codeq::Decode>::decode(&mut rd);
+        let ok = r.is_ok() && rd.is_empty();
+        core::mem::forget(r);
+        ok
+    };
+    let mut it = RecordIterator::<&[u8], KTypes>::new(&buf[..], L as u64, ChunkId(0));
+    match it.next() {
+        Some(Ok((seg, rec))) => {
+            assert!(plain_ok, "iterator yields a record the decoder rejects");
+            assert!(seg.offset == 0 && seg.size == L as u64, "segment of the only record");
+            kani::cover!(true, "complete record at the very end of the file is recovered");
+            core::mem::forget(rec);
         }
-        assert!(it.next().is_none(), "iterator goes on after the end of the file");
+        Some(Err(e)) => {
+            assert!(!plain_ok, "a complete valid record that ends exactly at the end of the file was reported as an error");
+            kani::cover!(true, "damaged record reported");
+            core::mem::forget(e);
+        }
+        None => assert!(false, "a record was skipped"),
+    }
+    assert!(it.next().is_none(), "iterator goes on after the end of the file / after an error");
+    core::mem::forget(it);
+}
+
+// @harness name=c10_iter_end_truncnone prop=C10 tier=quick timeout=1200
+rec_proof! { unwind = 20, fn c10_iter_end_truncnone() { iter_vs_decode::<13>(3, Some(0)); } }
+// @harness name=c10_iter_end_commit prop=C10 tier=quick timeout=1200
+rec_proof! { unwind = 20, fn c10_iter_end_commit() { iter_vs_decode::<14>(2, None); } }
+
+fn iter_prefixes<const L: usize>(tag: u8, opt: Option<u8>) {
+    let mut cut = 1;
+    while cut < L {
+        let buf = frame::<L>(tag, opt);
+        let mut it = RecordIterator::<&[u8], KTypes>::new(&buf[..cut], cut as u64, ChunkId(0));
+        match it.next() {
+            Some(Err(e)) => {
+                assert!(e.kind() == io::ErrorKind::UnexpectedEof, "a cut record is not reported as an incomplete record");
+                kani::cover!(cut + 1 == L, "cut one byte short");
+                core::mem::forget(e);
+            }
+            Some(Ok(r)) => {
+                core::mem::forget(r);
+                assert!(false, "a cut record was accepted");
+            }
+            None => assert!(false, "a cut record was skipped silently"),
+        }
+        assert!(it.next().is_none(), "iterator goes on after an error");
         core::mem::forget(it);
+        cut += 1;
     }
 }
 
-// @harness name=c10_iter_cut prop=C10 tier=quick timeout=1200
-rec_proof! {
-    unwind = 20,
-    fn c10_iter_cut() {
-        // every cut position inside the record (concrete loop, symbolic bytes)
-        let buf = one_commit();
-        let mut cut = 1;
-        while cut < 14 {
-            let mut it = RecordIterator::<&[u8], KTypes>::new(&buf[..cut], cut as u64, ChunkId(0));
-            match it.next() {
-                Some(Err(e)) => {
-                    assert!(e.kind() == io::ErrorKind::UnexpectedEof, "a cut record is not reported as an incomplete record");
-                    kani::cover!(cut == 13, "cut one byte short");
-                    core::mem::forget(e);
-                }
-                Some(Ok(r)) => {
-                    core::mem::forget(r);
-                    assert!(false, "a cut record was accepted");
-                }
-                None => assert!(false, "a cut record was skipped silently"),
-            }
-            assert!(it.next().is_none(), "iterator goes on after an error");
-            core::mem::forget(it);
-            cut += 1;
-        }
-    }
-}
+// @harness name=c10_iter_cut_commit prop=C10 tier=quick timeout=1500
+rec_proof! { unwind = 20, fn c10_iter_cut_commit() { iter_prefixes::<14>(2, None); } }
